@@ -26,6 +26,7 @@ from harness import hyp
 from harness.runner import Result, REPO, VERIF, library_frame
 
 ID = "C01"
+OPTIMIZED_PASS = True      # the whole search runs once more under python -OO (harness/runner.py)
 LEVEL = "exploration"
 RULE = ("enumeration of (length, value, device type, map class) - every enumerated input is distinct by "
         "construction; non-trivial = the result is a named command/event class, or a generic class reached "
